@@ -271,7 +271,7 @@ Fixpoint exec_stmt (W : worlds) (s : stmt) (q : state) {struct s} : option (outc
                      | Some (true, q1) =>
                          match sbind t v (st_store q1) with
                          | Some s' =>
-                             match blk body (mkSt s' (st_own q1) (st_trace q1)) with
+                             match blk body (mkSt s' (fold_left rebind_own (tgt_names t) (st_own q1)) (st_trace q1)) with
                              | Some (ONormal, q2) | Some (OCont, q2) => loop rest q2
                              | Some (OBreak, q2) => Some (ONormal, q2)
                              | r => r
@@ -310,7 +310,7 @@ Definition exec_loop (W : worlds) (t : tgt) (it : isrc) (body : list stmt)
         | Some (true, q1) =>
             match sbind t v (st_store q1) with
             | Some s' =>
-                match exec_block W body (mkSt s' (st_own q1) (st_trace q1)) with
+                match exec_block W body (mkSt s' (fold_left rebind_own (tgt_names t) (st_own q1)) (st_trace q1)) with
                 | Some (ONormal, q2) | Some (OCont, q2) => loop rest q2
                 | Some (OBreak, q2) => Some (ONormal, q2)
                 | r => r
@@ -557,16 +557,23 @@ Definition filter_test (x : nat) (c : expr) : option (option nat) :=
 Definition simple_stmt (s : stmt) : bool :=
   match s with SIf _ _ _ | SFor _ _ _ => false | _ => true end.
 
+(* the two body shapes: (test, the one statement, negative form?) *)
+Definition filter_shape (body : list stmt) : option (expr * stmt * bool) :=
+  match body with
+  | [SIf c [s1] []] => Some (c, s1, false)
+  | [SIf (ENot c) [SCont] []; s1] => Some (c, s1, true)
+  | _ => None
+  end.
+
 Definition rw_filter (s : stmt) : option stmt :=
   match s with
-  | SFor (TName x) (IPlain e) [SIf c [s1] []] =>
-      match filter_test x c with
-      | Some f => if simple_stmt s1 then Some (SFor (TName x) (IFilter f e) [s1]) else None
-      | None => None
-      end
-  | SFor (TName x) (IPlain e) [SIf (ENot c) [SCont] []; s1] =>
-      match filter_test x c with
-      | Some f => if simple_stmt s1 then Some (SFor (TName x) (IFilter f e) [s1]) else None
+  | SFor (TName x) (IPlain e) body =>
+      match filter_shape body with
+      | Some (c, s1, _) =>
+          match filter_test x c with
+          | Some f => if simple_stmt s1 then Some (SFor (TName x) (IFilter f e) [s1]) else None
+          | None => None
+          end
       | None => None
       end
   | _ => None
